@@ -55,7 +55,7 @@ class Verdict:
                     self.known.append(line)
                     print(line, flush=True)
                 return False
-        key = json.dumps([what, signature], sort_keys=True, default=str)
+        key = json.dumps(signature if signature else what, sort_keys=True, default=str)
         if key in self._seen:
             return True
         self._seen.add(key)
